@@ -29,15 +29,18 @@ T_Interp == /\ Ev.ev = "Interp" /\ Ask(Ev.axes, TabOf(Ev), Ev.p)
 SMin4(c) == LET m(a, b) == IF SLeq(a, b) THEN a ELSE b IN m(m(c[1], c[2]), m(c[3], c[4]))
 SMax4(c) == LET m(a, b) == IF SLeq(a, b) THEN b ELSE a IN m(m(c[1], c[2]), m(c[3], c[4]))
 Slack(c) == SAdd(SMul(SAbs(SMax4(c)), Norm(1, 20, -6)), Norm(1, 1, -12))
+(* closeness is judged at the scale of the values being blended: a prediction that nearly cancels to zero between corners of
+   opposite sign carries the rounding of the corners, not of itself *)
+Mag4(c) == LET a == SAbs(SMax4(c))  b == SAbs(SMin4(c)) IN IF SLeq(a, b) THEN b ELSE a
 T_ISG == /\ Ev.ev = "ISG" /\ UNCHANGED iq
          /\ Chk("C14 prediction succeeded (outside = nearest boundary)", Ev.ok)
          /\ Chk("C14 between the surrounding grid values",
                 /\ SLeq(SSub(SMin4(Ev.corners), Slack(Ev.corners)), Ev.y)
                 /\ SLeq(Ev.y, SAdd(SMax4(Ev.corners), Slack(Ev.corners))))
-         /\ Ev.on_grid => Chk("C14 grid point reproduces the underlying model", SClose(Ev.y, Ev.corners[1], 20))
-         /\ Chk("C14 outside = value at the nearest boundary", SClose(Ev.y, Ev.y_clamped, 5))
-         /\ Chk("C14 continuous across cell borders", SLeq(SAbs(SSub(Ev.y_plus, Ev.y_minus)), SAdd(SMul(SAbs(Ev.y), Norm(1, 100, -6)), Norm(1, 1, -9))))
-         /\ Chk("C14 same prediction in every input unit", SClose(Ev.y_units, Ev.y, 200))
+         /\ Ev.on_grid => Chk("C14 grid point reproduces the underlying model", SCloseTo(Ev.y, Ev.corners[1], Mag4(Ev.corners), 20))
+         /\ Chk("C14 outside = value at the nearest boundary", SCloseTo(Ev.y, Ev.y_clamped, Mag4(Ev.corners), 5))
+         /\ Chk("C14 continuous across cell borders", SLeq(SAbs(SSub(Ev.y_plus, Ev.y_minus)), SAdd(SMul(Mag4(Ev.corners), Norm(1, 100, -6)), Norm(1, 1, -9))))
+         /\ Chk("C14 same prediction in every input unit", SCloseTo(Ev.y_units, Ev.y, Mag4(Ev.corners), 200))
 TInit == l = 1 /\ iq = [axes |-> <<>>, tab |-> <<>>, p |-> <<>>]
 TNext == l <= Len(Rec) /\ l' = l + 1 /\ (T_Interp \/ T_ISG)
 TSpec == TInit /\ [][TNext]_tvars
